@@ -117,7 +117,7 @@ func endpointsOn(n *TNode, ep string) int {
 }
 
 func TestC18(t *testing.T) {
-	vlib.SetRule("C18", "TestC18", "real clusters of 2-4 nodes; 1-4 upstream listeners (distinct endpoints, Go SDK http) connect through a harness TCP load balancer that routes only to live nodes' upstream ports with a drawn node preference; the victim is any node, lost by graceful Shutdown (drawn grace period) or by a crash-like kill, while idle, with upstreams attached, or with slow requests in flight through survivors (and, in a third of the graceful cases, a 6 s request in flight through the victim's own proxy port); oracle: graceful shutdown returns within the grace period, leaves a left marker and no live endpoint keys in the victim's gossip state and every survivor sees status left as soon as Shutdown returns, and the victim's endpoints are served again by the survivors within 4 s of the shutdown starting, not when the slow request ends; in both manners no listener's Accept fails, every listener is registered on a survivor within the deadline, then requests for its endpoint succeed with the right stamp from every survivor, and in-flight requests entering at survivors end only in 200 or a gateway error; non-trivial = the victim held an upstream and requests enter at a different survivor")
+	vlib.SetRule("C18", "TestC18", "real clusters of 2-4 nodes; 1-4 upstream listeners (distinct endpoints, Go SDK http) connect through a harness TCP load balancer that routes only to live nodes' upstream ports with a drawn node preference; the victim is any node, lost by graceful Shutdown (drawn grace period) or by a crash-like kill, while idle, with upstreams attached, or with slow requests in flight through survivors (and, in a third of the graceful cases, a 6 s request in flight through the victim's own proxy port; in a quarter of the others, with >= 3 nodes, another node has just frozen - it accepts connections on its gossip port and never answers - and the grace period is 2 s); oracle: graceful shutdown returns within the grace period, leaves a left marker and no live endpoint keys in the victim's gossip state and every survivor sees status left as soon as Shutdown returns, and the victim's endpoints are served again by the survivors within 4 s of the shutdown starting, not when the slow request ends; in both manners no listener's Accept fails, every listener is registered on a survivor within the deadline, then requests for its endpoint succeed with the right stamp from every survivor, and in-flight requests entering at survivors end only in 200 or a gateway error; non-trivial = the victim held an upstream and requests enter at a different survivor")
 	vlib.Run(t, "C18", func(c *vlib.Case) {
 		N := c.Int("nodes", 2, 4)
 		grace := time.Duration(c.Int("graceSec", 2, 8)) * time.Second
@@ -127,6 +127,13 @@ func TestC18(t *testing.T) {
 		slowThroughVictim := c.Chance("slowRequestThroughVictim", 1, 3)
 		if slowThroughVictim {
 			grace = 8 * time.Second
+		}
+		// in some graceful shutdowns of clusters of >= 3 nodes another node has just
+		// frozen (it accepts connections on its gossip port and says nothing): the
+		// departure must still finish within the grace period
+		frozenPeer := !slowThroughVictim && c.Chance("frozenPeer", 1, 4)
+		if frozenPeer {
+			grace = 2 * time.Second
 		}
 		// half of the clusters protect the upstream port; listeners then hold tokens
 		// without an expiry or expiring long after the scenario
@@ -216,6 +223,25 @@ func TestC18(t *testing.T) {
 			if n != victim {
 				survivors = append(survivors, n)
 			}
+		}
+		if frozenPeer && manner == "shutdown" && len(survivors) >= 2 {
+			f := survivors[c.Pick("frozen", len(survivors))]
+			var rest []*TNode
+			for _, n := range survivors {
+				if n != f {
+					rest = append(rest, n)
+				}
+			}
+			survivors = rest
+			f.Up = false
+			f.Srv.VerifKill()
+			cl.HoldPorts(f)
+			cl.FreezeGossipPort(f)
+			for _, tu := range ups {
+				tu.lb.MarkDead(f.UpstreamAddr(), 0)
+			}
+			c.Stepf("%s froze just before the shutdown of %s (grace period %v)", f.ID, victim.ID, grace)
+			c.Class("a-peer-froze-just-before")
 		}
 		// in-flight load through survivors
 		type outcome struct {
